@@ -412,6 +412,10 @@ enum Case {
     Seq { faults: Vec<Fault>, server: usize, traffic: usize },
     /// bytes thrown at the TLS listener, then a liveness probe of its acceptor
     Tls { kind: String, send: Vec<Seg>, pause_ms: u64, ending: Ending },
+    /// peers that begin a TLS handshake (a prefix of a ClientHello each), then
+    /// stall with the connection OPEN while the TLS listener is probed; they
+    /// are closed afterwards
+    TlsStall { kind: String, peers: Vec<Vec<Seg>>, settle_ms: u64 },
     /// make accept(2) fail with EMFILE for `hold_ms` while a connection waits
     /// in the listen queue, then let go: the waiting connection must be served
     AcceptErr { server: usize, hold_ms: u64 },
@@ -720,6 +724,95 @@ fn tls_alive(addr: SocketAddr) -> (bool, Vec<u8>) {
         &|_| false,
     );
     (e.is_some(), buf)
+}
+
+mod noverify {
+    //! the harness's certificate is self-signed and throw-away: accept anything
+    use rustls::client::danger::{HandshakeSignatureValid, ServerCertVerified, ServerCertVerifier};
+    use rustls::pki_types::{CertificateDer, ServerName, UnixTime};
+    use rustls::{DigitallySignedStruct, Error, SignatureScheme};
+    #[derive(Debug)]
+    pub struct NoVerify;
+    impl ServerCertVerifier for NoVerify {
+        fn verify_server_cert(
+            &self,
+            _end_entity: &CertificateDer<'_>,
+            _intermediates: &[CertificateDer<'_>],
+            _server_name: &ServerName<'_>,
+            _ocsp: &[u8],
+            _now: UnixTime,
+        ) -> Result<ServerCertVerified, Error> {
+            Ok(ServerCertVerified::assertion())
+        }
+        fn verify_tls12_signature(
+            &self,
+            _m: &[u8],
+            _c: &CertificateDer<'_>,
+            _d: &DigitallySignedStruct,
+        ) -> Result<HandshakeSignatureValid, Error> {
+            Ok(HandshakeSignatureValid::assertion())
+        }
+        fn verify_tls13_signature(
+            &self,
+            _m: &[u8],
+            _c: &CertificateDer<'_>,
+            _d: &DigitallySignedStruct,
+        ) -> Result<HandshakeSignatureValid, Error> {
+            Ok(HandshakeSignatureValid::assertion())
+        }
+        fn supported_verify_schemes(&self) -> Vec<SignatureScheme> {
+            rustls::crypto::ring::default_provider()
+                .signature_verification_algorithms
+                .supported_schemes()
+        }
+    }
+}
+
+/// the TLS client runs on its own small runtime, so that nothing the servers'
+/// runtime does can starve it
+fn client_rt() -> &'static tokio::runtime::Runtime {
+    static RT: std::sync::OnceLock<tokio::runtime::Runtime> = std::sync::OnceLock::new();
+    RT.get_or_init(|| {
+        tokio::runtime::Builder::new_multi_thread().worker_threads(2).enable_all().build().unwrap()
+    })
+}
+
+/// The real health probe of the TLS listener: a complete TLS handshake on a
+/// FRESH connection, then `GET /health`; the status (0 = no answer) and the
+/// raw response bytes.  Generous deadline: 5 s for everything.
+fn tls_health(addr: SocketAddr) -> (u16, Vec<u8>) {
+    use tokio::io::{AsyncReadExt, AsyncWriteExt};
+    let fut = async move {
+        let tcp = tokio::net::TcpStream::connect(addr).await.ok()?;
+        let _ = tcp.set_nodelay(true);
+        let cfg = rustls::ClientConfig::builder()
+            .dangerous()
+            .with_custom_certificate_verifier(Arc::new(noverify::NoVerify))
+            .with_no_client_auth();
+        let connector = tokio_rustls::TlsConnector::from(Arc::new(cfg));
+        let name = rustls::pki_types::ServerName::try_from("localhost").ok()?;
+        let mut tls = connector.connect(name, tcp).await.ok()?;
+        tls.write_all(b"GET /health HTTP/1.1\r\nHost: localhost\r\n\r\n").await.ok()?;
+        tls.flush().await.ok()?;
+        let mut buf = vec![];
+        let mut tmp = [0u8; 4096];
+        loop {
+            if scan_responses(&buf, false).0.len() >= 1 {
+                break;
+            }
+            match tls.read(&mut tmp).await {
+                Ok(0) | Err(_) => break,
+                Ok(n) => buf.extend_from_slice(&tmp[..n]),
+            }
+        }
+        Some(buf)
+    };
+    let buf = client_rt()
+        .block_on(async { tokio::time::timeout(Duration::from_secs(5), fut).await })
+        .ok()
+        .flatten()
+        .unwrap_or_default();
+    (scan_responses(&buf, false).0.first().copied().unwrap_or(0), buf)
 }
 
 // ------------------------------------------------------------------ request builders
@@ -1576,11 +1669,8 @@ fn gen_sequences(out: &mut Vec<Case>, rng: &mut Rng, pool: &[Case], lens: &[usiz
     }
 }
 
-fn gen_tls(out: &mut Vec<Case>, rng: &mut Rng, n_random: usize) {
-    let mut t = |kind: &str, bytes: Vec<u8>, pause_ms: u64, ending: Ending| {
-        out.push(Case::Tls { kind: kind.to_string(), send: vec![lit(&bytes)], pause_ms, ending })
-    };
-    // a plausible TLS 1.2-style ClientHello record (never completed)
+/// a plausible TLS 1.2-style ClientHello record (never completed)
+fn client_hello() -> Vec<u8> {
     let mut hello = vec![0x16, 0x03, 0x01, 0x00, 0x5f, 0x01, 0x00, 0x00, 0x5b, 0x03, 0x03];
     hello.extend((0..32).map(|i| i as u8));
     hello.push(0); // session id
@@ -1588,6 +1678,42 @@ fn gen_tls(out: &mut Vec<Case>, rng: &mut Rng, n_random: usize) {
     hello.extend_from_slice(&[0x01, 0x00]); // compression
     hello.extend_from_slice(&[0x00, 0x2e]); // extensions length
     hello.extend(std::iter::repeat(0).take(0x2e));
+    hello
+}
+
+/// peers that start a handshake and then stall, staying connected
+fn gen_tls_stalls(out: &mut Vec<Case>, rng: &mut Rng, thorough: bool) {
+    let hello = client_hello();
+    let n = hello.len();
+    let mut cuts = vec![0usize, 1, 3, 5, 6, 11, 40, n / 2, n - 1];
+    if thorough {
+        cuts = (0..n).collect();
+    }
+    for &k in &cuts {
+        for settle_ms in if thorough { vec![60u64] } else { vec![0u64, 60] } {
+            out.push(Case::TlsStall {
+                kind: format!("tls-stalled-handshake/{}", if k == 0 { "connect-only" } else if k < 5 { "in-record-header" } else { "in-hello-body" }),
+                peers: vec![vec![lit(&hello[..k])]],
+                settle_ms,
+            });
+        }
+    }
+    for npeers in if thorough { vec![2usize, 5, 5, 12, 40] } else { vec![3usize, 8] } {
+        let peers = (0..npeers)
+            .map(|i| {
+                let k = if i == 0 { 3 } else { rng.below(n) };
+                vec![lit(&hello[..k])]
+            })
+            .collect();
+        out.push(Case::TlsStall { kind: "tls-stalled-handshake/several-peers".to_string(), peers, settle_ms: 60 });
+    }
+}
+
+fn gen_tls(out: &mut Vec<Case>, rng: &mut Rng, n_random: usize) {
+    let mut t = |kind: &str, bytes: Vec<u8>, pause_ms: u64, ending: Ending| {
+        out.push(Case::Tls { kind: kind.to_string(), send: vec![lit(&bytes)], pause_ms, ending })
+    };
+    let hello = client_hello();
     for ending in [Ending::Close, Ending::Half, Ending::Rst] {
         t("tls/plain-http", b"GET /health HTTP/1.1\r\nHost: localhost\r\n\r\n".to_vec(), 0, ending);
         t("tls/connect-only", vec![], 0, ending);
@@ -1633,6 +1759,7 @@ fn generate(opts: &Opts) -> Vec<Case> {
     };
     gen_sequences(&mut out, &mut rng, &pool, &lens);
     gen_tls(&mut out, &mut rng, if opts.thorough { 400 } else { 20 });
+    gen_tls_stalls(&mut out, &mut rng, opts.thorough);
     for sv in [0usize, 1, TLS] {
         for hold_ms in if opts.thorough { vec![150u64, 250, 450] } else { vec![250] } {
             out.push(Case::AcceptErr { server: sv, hold_ms });
@@ -1825,7 +1952,10 @@ fn run_case(c: &Case, addrs: &[SocketAddr], accept_errors: &[Arc<AtomicUsize>]) 
             let logged = accept_errors[*server].load(Ordering::SeqCst) - before;
             let tls = *server == TLS;
             let (served, h) = if tls {
-                (if ended { 200 } else { 0 }, if tls_alive(addrs[TLS]).0 { 200 } else { 0 })
+                (
+                    if ended { 200 } else { 0 },
+                    if tls_alive(addrs[TLS]).0 { tls_health(addrs[TLS]).0 } else { 0 },
+                )
             } else {
                 (
                     scan_responses(&ans, false).0.first().copied().unwrap_or(0),
@@ -1957,17 +2087,20 @@ fn run_case(c: &Case, addrs: &[SocketAddr], accept_errors: &[Arc<AtomicUsize>]) 
             };
             let (ans, end) = run_fault(&f, addrs[TLS]);
             let (alive, probe) = tls_alive(addrs[TLS]);
+            let (h, hbytes) = tls_health(addrs[TLS]);
             Line {
                 group: "tls",
                 case: serde_json::to_value(c).unwrap(),
                 obs: json!({"bytes": ans.len(), "end": format!("{:?}", end), "alive": alive,
-                            "answer_head": latin1(&ans), "probe_bytes": probe.len()}),
+                            "answer_head": latin1(&ans), "probe_bytes": probe.len(), "tls_health": h}),
                 coq: format!(
-                    "CTls {} {} {} {}",
+                    "CTls {} {} {} {} {} {}",
                     g_bytes(&ans),
                     end.coq(),
                     g_bool(alive),
-                    g_bytes(&probe)
+                    g_bytes(&probe),
+                    g_n(h as u128),
+                    g_bytes(&hbytes)
                 ),
                 tags: vec![
                     format!("kind:{}", kind),
@@ -1975,8 +2108,68 @@ fn run_case(c: &Case, addrs: &[SocketAddr], accept_errors: &[Arc<AtomicUsize>]) 
                     format!("end:{:?}", end),
                     format!("tls-answer:{}", if ans.is_empty() { "silent" } else { "records" }),
                     format!("tls-alive:{}", alive),
+                    format!("tls-health:{}", h),
                 ],
                 nontrivial: true,
+            }
+        }
+        Case::TlsStall { kind, peers, settle_ms } => {
+            // open the peers, send each its prefix, and KEEP them open
+            let mut held = vec![];
+            for p in peers {
+                if let Ok(mut s) = TcpStream::connect_timeout(&addrs[TLS], Duration::from_secs(5)) {
+                    let _ = s.set_nodelay(true);
+                    let _ = s.set_write_timeout(Some(Duration::from_secs(5)));
+                    let _ = s.write_all(&expand(p));
+                    held.push(s);
+                }
+            }
+            if *settle_ms > 0 {
+                std::thread::sleep(Duration::from_millis(*settle_ms));
+            }
+            // while they stall: the full-handshake probe first, then the
+            // plain-bytes liveness probe, then the full probe once more
+            let (h1, hbytes) = tls_health(addrs[TLS]);
+            let (alive, probe) = tls_alive(addrs[TLS]);
+            let (h2, _) = tls_health(addrs[TLS]);
+            // did the server say anything to a stalled peer meanwhile? (it should just wait)
+            let mut stalled_answers = 0usize;
+            for s in held.iter_mut() {
+                let _ = s.set_nonblocking(true);
+                let mut tmp = [0u8; 64];
+                if let Ok(n) = s.read(&mut tmp) {
+                    if n > 0 {
+                        stalled_answers += 1;
+                    }
+                }
+            }
+            let n_held = held.len();
+            drop(held);
+            // and after they are gone
+            let (h3, _) = tls_health(addrs[TLS]);
+            Line {
+                group: "tls-stall",
+                case: serde_json::to_value(c).unwrap(),
+                obs: json!({"peers_held": n_held, "alive": alive, "tls_health_while_stalled": [h1, h2],
+                            "tls_health_after": h3, "stalled_peers_answered": stalled_answers}),
+                coq: format!(
+                    "CTlsStall {} {} {} {} {} {} {}",
+                    g_n(n_held as u128),
+                    g_bool(alive),
+                    g_bytes(&probe),
+                    g_n(h1 as u128),
+                    g_n(h2 as u128),
+                    g_n(h3 as u128),
+                    g_bytes(&hbytes)
+                ),
+                tags: vec![
+                    format!("kind:{}", kind),
+                    format!("stalled-peers:{}", n_held),
+                    format!("tls-alive:{}", alive),
+                    format!("tls-health-while-stalled:{}/{}", h1, h2),
+                    format!("tls-health:{}", h3),
+                ],
+                nontrivial: n_held == peers.len(),
             }
         }
     }
@@ -1998,6 +2191,7 @@ fn main() {
         for (i, a) in addrs.iter().enumerate() {
             if i == TLS {
                 assert!(tls_alive(*a).0, "tls server not alive at start");
+                assert_eq!(tls_health(*a).0, 200, "tls server not healthy at start");
             } else {
                 assert_eq!(health(*a, i), 200, "server {} not healthy at start", i);
             }
